@@ -175,6 +175,7 @@ def c10(a):
         c.add_mc(tlc_mc("MC_Round.tla", "MC_Round.cfg", os.path.join(workdir("C10", False), "mc"), workers=8))
         c.add_mc(tlc_mc("MC_BigInt.tla", "MC_BigInt.cfg", os.path.join(workdir("C10", False), "mc2"), workers=4))
     drive_and_validate(c, a, binary, "c10", "Trace_Civil.tla")
+    zoned_part(c, a, binary, "c10z")
     c.rule = ("Engine C: MC_Round.tla shows, for all |x| <= 130, increments 1..13 and the 9 modes, that exactly one multiple "
               "satisfies the declarative RoundOk, that the transcription of jiff's RoundMode::round computes it, and that "
               "the BigInt form agrees with the native one. Engine A: round_time / round_dt / round_ts / round_sd / round_off "
@@ -184,3 +185,70 @@ def c10(a):
               "verified by multiplication). Zoned rounding is validated by the C13/C06 zoned driver.")
     c.assumptions = TRUSTED
     return c.finish()
+
+
+@prop("C07")
+def c07(a):
+    c = Check("C07", a.tier, a.seed)
+    workdir("C07")
+    binary = build_harness()
+    drive_and_validate(c, a, binary, "c07", "Trace_Civil.tla")
+    # zoned differences: same law on zoned values (driver zd.rs)
+    zoned_part(c, a, binary, "c07z")
+    c.rule = ("until / since / duration_until of Date, DateTime, Time and Timestamp for ordered pairs biased to month ends, "
+              "leap days, equal-or-crossing times of day, both directions and type limits x every largest unit; the spec "
+              "computes the expected span exactly (Temporal's surpass criterion on the unclamped year-month-day for months "
+              "and years, exact BigInt nanoseconds for time units), checks a + s = b with its own addition, the negation "
+              "law for since, the exact distance for duration_until and Err exactly when the span does not fit the unit "
+              "limits. Zoned pairs straddling gaps/folds are produced by the zoned driver.")
+    c.assumptions = TRUSTED
+    return c.finish()
+
+
+def zoned_part(c, a, binary, driver):
+    """Run a zoned driver (zd.rs) and validate it with Trace_Zoned.tla."""
+    zd = compile_zones(c.pid)
+    ex = ["--zones", zd]
+    if a.replay:
+        return   # zoned cases are replayed through the zone-restricted driver by the owning property
+    drive_and_validate(c, a, binary, driver, "Trace_Zoned.tla", extra=ex)
+
+
+ZONED_RULE = ("Zoned events run on ~44 zones (30 chosen for odd behaviour: half-hour DST, negative DST, midnight gaps and "
+              "folds, date-line jumps, sub-minute LMT; plus a seeded sample, the synthetic zones and POSIX strings; thorough: "
+              "all zones), from instants within +-2 days of transitions, month ends, Feb 29 and the range limits. Every "
+              "reported Zoned is first checked for well-formedness (offset = zone's offset at the instant, civil = instant "
+              "+ offset). ")
+
+
+@prop("C06")
+def c06(a):
+    c = Check("C06", a.tier, a.seed)
+    workdir("C06")
+    binary = build_harness()
+    zoned_part(c, a, binary, "c06")
+    c.rule = ZONED_RULE + ("C06 events: checked_add / checked_sub / saturating_add with spans (single units, 2- and 3-unit "
+              "mixes, magnitudes 1, 2, 12, 13, 23, 24, 25, 31, 366 and seeded up to the limits, both signs), absolute "
+              "durations, start_of_day / end_of_day / tomorrow / yesterday. Expected: calendar units on the wall clock with "
+              "compatible resolution, then exact elapsed time (Zoned.tla); start of day = first instant of the civil day.")
+    c.assumptions = TRUSTED + ["the harness's independent TZif / POSIX TZ readers", "zic"]
+    return c.finish()
+
+
+@prop("C13")
+def c13(a):
+    c = Check("C13", a.tier, a.seed)
+    workdir("C13")
+    binary = build_harness()
+    zoned_part(c, a, binary, "c13")
+    # every Zoned produced by the arithmetic / difference / rounding drivers is checked for WF as well
+    zoned_part(c, a, binary, "c06")
+    zoned_part(c, a, binary, "c10z")
+    c.rule = ZONED_RULE + ("C13 events: seeded operation histories (length <= 12 in thorough, 8 in quick) over checked_add/sub, "
+              "start/end_of_day, tomorrow/yesterday, first/last_of_month, round, with().hour/minute/month/day, nth_weekday, "
+              "Display->parse, DateTime::to_zoned, with_time_zone; after EVERY step the four components are checked against "
+              "the zone, Eq/Ord/Hash of consecutive states against their instants, and zone changes for keeping the instant. "
+              "The Zoned results of the C06 and C10 zoned drivers are checked for well-formedness too.")
+    c.assumptions = TRUSTED + ["the harness's independent TZif / POSIX TZ readers", "zic"]
+    return c.finish()
+
